@@ -4,7 +4,8 @@ import os
 from concurrent.futures import ThreadPoolExecutor
 from vf import build, framework as fw
 
-RULE = ("each run draws one configuration: threads 1-8 x flavour {eager, lazy, detached, lazy+detached} x submitters 1-6 x "
+RULE = ("[a third of the runs have tasks that submit one follow-up task to their own pool (accepted, or refused because the pool is shutting down); a fifth inject pthread_create failures (EAGAIN) into m_thpool_new/m_thpool_add: a refused task never runs, a failed creation leaves nothing behind, nothing deadlocks] "
+        "each run draws one configuration: threads 1-8 x flavour {eager, lazy, detached, lazy+detached} x submitters 1-6 x "
         "tasks 0-64 x wait_all x clear x task profile x per-hook-point delay probabilities x spurious-broadcast chaos thread; "
         "monitors: per-task execution counter and argument identity, start/finish stamps vs the stamp at which m_thpool_free "
         "returned, concurrency gauge <= threads, hook events adjacent to pool accesses after free returned, allocator balance, "
